@@ -85,6 +85,14 @@ def _inputs(env, sh, mode):
     return key, nonce
 
 
+def _aad(env, sh):
+    k = sh.get('aad_sym')
+    if k is None:
+        return env.bytes('aad', sh['alen'])
+    # long associated data (length-encoding thresholds): k leading symbolic bytes, the rest zero
+    return env.P.concat(env.bytes('aad', k), bytes(sh['alen'] - k))
+
+
 def _feed_aad(ci, aad, sh):
     if len(aad) or sh.get('force_update'):
         cut = sh.get('acut')
@@ -106,7 +114,7 @@ def run_dec(env, sh):
     """receiver keyed with (key, nonce) is offered an arbitrary (aad, ct, tag)."""
     mode = sh['mode']
     key, nonce = _inputs(env, sh, mode)
-    aad = env.bytes('aad', sh['alen'])
+    aad = _aad(env, sh)
     ct = env.bytes('ct', sh['dlen'])
     tag = env.bytes('tag', sh['tlen'])
     tags = [tag]
@@ -139,8 +147,17 @@ def _dec_once(env, sh, mode, key, nonce, aad, ct, tag):
     env.check(_legal(mode, sh), 'constructor accepts only legal parameters')
     _feed_aad(ci, aad, sh)
     api = sh.get('api', 'dv')
+    outmode = sh.get('out')
     try:
-        if api == 'dv':
+        if outmode:
+            # caller-supplied output buffer; 'inplace': the output buffer IS the ciphertext buffer
+            src = env.as_bytearray(ct)
+            dst = src if outmode == 'inplace' else env.as_bytearray(bytes(len(ct)))
+            r0 = ci.decrypt_and_verify(src, tag, output=dst)
+            pt = env.tobytes(dst)
+            if outmode != 'inplace':
+                env.check(env.tobytes(src) == ct, 'the input buffer is not modified')
+        elif api == 'dv':
             pt = ci.decrypt_and_verify(ct, tag)
         else:
             if mode == 'ocb':
@@ -161,12 +178,19 @@ def run_enc(env, sh):
     """sender output == specification; receiver built from the exposed nonce accepts it."""
     mode = sh['mode']
     key, nonce = _inputs(env, sh, mode)
-    aad = env.bytes('aad', sh['alen'])
+    aad = _aad(env, sh)
     pt = env.bytes('pt', sh['dlen'])
     ci = _new(mode, key, nonce, sh)
     _feed_aad(ci, aad, sh)
     api = sh.get('api', 'ed')
-    if api == 'ed':
+    outmode = sh.get('out')
+    if outmode:
+        src = env.as_bytearray(pt)
+        dst = src if outmode == 'inplace' else env.as_bytearray(bytes(len(pt)))
+        r0, tag = ci.encrypt_and_digest(src, output=dst)
+        env.check(r0 is None, 'nothing is returned when output= is given')
+        ct = env.tobytes(dst)
+    elif api == 'ed':
         ct, tag = ci.encrypt_and_digest(pt)
     else:
         if mode == 'ocb':
@@ -377,7 +401,7 @@ def run_kwp_seal(env, sh):
 
 
 HARNESSES = dict(
-    dec=Harness('dec', run_dec), enc=Harness('enc', run_enc),
+    dec=Harness('dec', run_dec, budget_s=600), enc=Harness('enc', run_enc, budget_s=600),
     siv_dec=Harness('siv_dec', run_siv_dec), siv_enc=Harness('siv_enc', run_siv_enc),
     kw_unseal=Harness('kw_unseal', run_kw_unseal), kw_seal=Harness('kw_seal', run_kw_seal),
     kwp_unseal=Harness('kwp_unseal', run_kwp_unseal), kwp_seal=Harness('kwp_seal', run_kwp_seal),
@@ -421,6 +445,10 @@ def _mode_jobs(mode, thorough):
                         for tl in sorted(set([t - 1, t + 1, 0, 16, 17])):
                             if tl >= 0 and tl != t and (thorough or tl in (t - 1, t + 1)):
                                 jobs.append(('dec', dict(base, tlen=tl)))
+                    if (a, d) in ((17, 17), (1, 16), (0, 17)) and t == macs[-1] and mode in ('gcm', 'ccm', 'eax'):
+                        for om in ('inplace', 'fresh'):
+                            jobs.append(('dec', dict(base, tlen=t, out=om)))
+                            jobs.append(('enc', dict(base, out=om)))
                     if (a, d) in ((17, 17), (1, 16)) and t == macs[-1]:
                         jobs.append(('dec', dict(base, tlen=t, api='sep')))
                         jobs.append(('enc', dict(base, api='sep')))
@@ -434,6 +462,13 @@ def _mode_jobs(mode, thorough):
             sh = dict(mode=mode, klen=32, nlen=NONCES[mode][1], mac=MACS[mode][-1], alen=1, dlen=1)
             sh[kk] = v
             jobs.append(('dec', dict(sh, tlen=max(0, sh['mac']))))
+    if mode == 'ccm':
+        # SP 800-38C A.2.2: the encoding of the AAD length changes at 2^16-2^8 (and 2^32)
+        for a in ((65279, 65280, 65281, 65535, 65536) if thorough else (65279, 65280)):
+            base = dict(mode='ccm', klen=16, nlen=12, mac=8, alen=a, dlen=1, aad_sym=2)
+            if thorough:
+                jobs.append(('dec', dict(base, tlen=8)))
+            jobs.append(('enc', dict(base, declare=True)))
     return jobs
 
 
